@@ -456,6 +456,7 @@ struct Global {
     verbose: bool,
     /// the 8 executions (>= 2 deviations) with the smallest case hash
     samples: Mutex<BTreeMap<u64, Value>>,
+    wd: Watchdog,
 }
 
 #[derive(Clone, Debug, PartialEq, Eq)]
@@ -508,6 +509,8 @@ struct Core<'a> {
     excuse_all: bool,
     /// ... or this particular request
     excused: Vec<bool>,
+    /// a complete message reached the client after this request's start
+    traffic: Vec<bool>,
 }
 
 fn err_class(e: &Error) -> String {
@@ -544,6 +547,7 @@ impl<'a> Core<'a> {
             err_unexamined: Vec::new(),
             excuse_all: false,
             excused: vec![false; plan.len()],
+            traffic: vec![false; plan.len()],
         }
     }
     fn choose(&self, n: usize, label: &'static str) -> usize {
@@ -740,10 +744,16 @@ impl<'a> Core<'a> {
                 if now.duration_since(s) >= b && r.slot.is_some() {
                     let el = now.duration_since(s);
                     self.reqs[i].start = None; // report once
-                    self.violate(
-                        format!("C15|{}|budget|request-pending-after-timeout-and-retry-budget", self.tname),
-                        format!("request {i} still pending {el:?} after its start; budget {b:?}"),
-                    );
+                    let (sig, why) = if self.tname == "stream" {
+                        if self.traffic[i] {
+                            ("C15|stream|budget|request-pending-after-response-timeout|timer-restarted-by-another-message".to_string(), " (another message arrived on the connection after the request started)")
+                        } else {
+                            ("C15|stream|budget|request-pending-after-response-timeout|no-traffic".to_string(), " (nothing arrived on the connection)")
+                        }
+                    } else {
+                        (format!("C15|{}|budget|request-pending-after-timeout-and-retry-budget", self.tname), "")
+                    };
+                    self.violate(sig, format!("request {i} still pending {el:?} after its start; budget {b:?}{why}"));
                 }
             }
         }
@@ -877,14 +887,23 @@ impl<'a> Core<'a> {
 #[derive(Clone, Debug)]
 struct StreamCfg {
     plan: Vec<usize>,
-    idle0: bool,
+    /// idle timeout in ms (0 = close as soon as idle)
+    idle_ms: u64,
+    /// response timeout in ms
+    rt_ms: u64,
+    /// the peer does not answer by default: time passes instead
+    silent: bool,
+    /// by default, this much time passes between the first wave having been
+    /// answered completely and the second wave (0 = no gap, second wave starts
+    /// when at most one request is open)
+    gap_ms: u64,
     /// size of the first wave of submissions; the rest is submitted (by
     /// default) once at most one request is still open at the peer
     wave1: usize,
 }
 impl StreamCfg {
     fn json(&self) -> Value {
-        json!({"plan": self.plan, "idle_timeout_zero": self.idle0, "first_wave": self.wave1})
+        json!({"plan": self.plan, "idle_timeout_ms": self.idle_ms, "response_timeout_ms": self.rt_ms, "peer_silent_by_default": self.silent, "first_wave": self.wave1, "gap_before_second_wave_ms": self.gap_ms})
     }
 }
 
@@ -910,6 +929,8 @@ enum SAct {
     Eof,
     ReadErr,
     Cancel(usize),
+    /// virtual time advances by this many ms
+    Tick(u64),
     Finish,
 }
 
@@ -926,6 +947,11 @@ fn account_frame(core: &mut Core, entries: &mut [Entry], conn: usize, healthy: b
     core.delivered.push(Delivered { bytes: msg.to_vec(), udp });
     if msg.len() < 12 {
         return;
+    }
+    for i in 0..core.reqs.len() {
+        if core.pending(i) {
+            core.traffic[i] = true;
+        }
     }
     let id = u16::from_be_bytes([msg[0], msg[1]]);
     if let Some(e) = entries.iter_mut().find(|e| e.open && e.conn == conn && e.id == id) {
@@ -947,9 +973,22 @@ async fn run_stream(g: &Global, cfg: &StreamCfg, ch: Arc<Mutex<Chooser>>) {
     let st = Arc::new(Mutex::new(StreamState::default()));
     let mock = MockStream { st: st.clone(), ch: ch.clone(), wf: WFaults { enabled: true, all_cuts: g.all_cuts.load(Ordering::Relaxed) } };
     let mut sc = stream::Config::new();
-    if cfg.idle0 {
-        sc.set_idle_timeout(Duration::ZERO);
+    let rt = Duration::from_millis(cfg.rt_ms);
+    let idle = Duration::from_millis(cfg.idle_ms);
+    sc.set_idle_timeout(idle);
+    sc.set_response_timeout(rt);
+    if sc.idle_timeout() != idle || sc.response_timeout() != rt {
+        eprintln!("MACHINERY: stream config limits changed the configured timeouts");
+        std::process::exit(2);
     }
+    // Budget of a stream request: response_timeout from its submission, plus
+    // 1 ms: tokio timers have 1 ms resolution and the transport's test is the
+    // strict `elapsed > response_timeout`, so expiry is first observable at
+    // the first clock value above the deadline, which the harness reaches
+    // with its "+1 ms" steps.
+    core.budget = Some(rt + Duration::from_millis(1));
+    let t_begin = Instant::now();
+    let mut gap_done = false;
     let (conn, transport) = stream::Connection::<Rq, RqM>::with_config(mock, sc);
     let mut conn = Some(conn);
     let mut tr = Some(Slot::new(transport.run()));
@@ -983,6 +1022,11 @@ async fn run_stream(g: &Global, cfg: &StreamCfg, ch: Arc<Mutex<Chooser>>) {
         if !healthy || st.lock().unwrap().werr {
             core.excuse_all = true;
         }
+        // no timeout of the transport can have fired before this much time has passed
+        let earliest_timeout = if cfg.idle_ms == 0 { rt } else { rt.min(idle) };
+        if Instant::now().duration_since(t_begin) >= earliest_timeout {
+            core.excuse_all = true;
+        }
         core.check_spurious();
         {
             let s = st.lock().unwrap();
@@ -1003,13 +1047,26 @@ async fn run_stream(g: &Global, cfg: &StreamCfg, ch: Arc<Mutex<Chooser>>) {
         let open: Vec<usize> = (0..entries.len()).filter(|i| entries[*i].open).collect();
         let next_unsub = (0..core.reqs.len()).find(|i| !core.reqs[*i].submitted);
         let mut menu: Vec<SAct> = Vec::new();
+        let at_wave_boundary = next_unsub == Some(cfg.wave1) && healthy;
+        let keep_open = if cfg.gap_ms > 0 { 0 } else { 1 };
+        let gap_now = at_wave_boundary && cfg.gap_ms > 0 && open.is_empty() && !gap_done;
         let submit_now = match next_unsub {
-            Some(i) => i != cfg.wave1 || open.len() <= 1 || !healthy,
+            Some(_) => !(at_wave_boundary && (open.len() > keep_open || gap_now)),
             None => false,
         };
-        let deliver_default = !submit_now && healthy && !open.is_empty();
+        let silent_now = cfg.silent && next_unsub.is_none() && healthy && !open.is_empty();
+        let deliver_default = !submit_now && !gap_now && !silent_now && healthy && !open.is_empty();
+        let default_tick: Option<u64> = if gap_now {
+            Some(cfg.gap_ms)
+        } else if silent_now {
+            Some(cfg.rt_ms + 1)
+        } else {
+            None
+        };
         if submit_now {
             menu.push(SAct::Submit);
+        } else if let Some(d) = default_tick {
+            menu.push(SAct::Tick(d));
         } else if deliver_default {
             menu.push(SAct::Deliver(open[0], RKind::Answer));
         } else {
@@ -1067,6 +1124,18 @@ async fn run_stream(g: &Global, cfg: &StreamCfg, ch: Arc<Mutex<Chooser>>) {
             }
             menu.push(SAct::Eof);
             menu.push(SAct::ReadErr);
+            // time passes: to just below / exactly / just above either timeout
+            let mut ds: Vec<u64> = vec![cfg.rt_ms - 1, cfg.rt_ms, cfg.rt_ms + 1];
+            if cfg.idle_ms > 1 {
+                ds.extend_from_slice(&[cfg.idle_ms - 1, cfg.idle_ms, cfg.idle_ms + 1]);
+            }
+            ds.sort();
+            ds.dedup();
+            for d in ds {
+                if default_tick != Some(d) && !TICK_SKIP.contains(&d) {
+                    menu.push(SAct::Tick(d));
+                }
+            }
         }
         for i in 0..core.reqs.len() {
             if core.pending(i) {
@@ -1094,6 +1163,7 @@ async fn run_stream(g: &Global, cfg: &StreamCfg, ch: Arc<Mutex<Chooser>>) {
             SAct::Submit => {
                 let i = next_unsub.unwrap();
                 core.count("action.submit");
+                core.reqs[i].start = Some(Instant::now());
                 if let Some(c) = conn.as_ref() {
                     core.submit(c, i);
                 }
@@ -1188,6 +1258,14 @@ async fn run_stream(g: &Global, cfg: &StreamCfg, ch: Arc<Mutex<Chooser>>) {
                 }
             }
             SAct::Cancel(i) => core.cancel(i),
+            SAct::Tick(d) => {
+                if gap_now {
+                    gap_done = true;
+                }
+                core.count("action.tick");
+                core.note(format!("virtual time advances by {d} ms (now +{} ms)", Instant::now().duration_since(t_begin).as_millis() as u64 + d));
+                tokio::time::advance(Duration::from_millis(d)).await;
+            }
             SAct::Finish => {
                 flush_tail(&mut core, &mut peer, &mut entries, healthy);
                 core.quiesce(&mut tr);
@@ -1405,6 +1483,11 @@ enum DAct {
     Cancel(usize),
     Finish,
 }
+
+/// Tick lengths not offered (see the assumptions in `main`).
+const TICK_SKIP: [u64; 0] = [];
+const ST_RT_MS: u64 = 1000;
+const ST_IDLE_MS: u64 = 300;
 
 const DG_READ_TIMEOUT: Duration = Duration::from_secs(1);
 
@@ -2017,6 +2100,11 @@ fn all_cases() -> Vec<Case> {
 
 fn run_case(g: &Global, case: &Case, ch: &mut Chooser) {
     let shared = Arc::new(Mutex::new(std::mem::take(ch)));
+    {
+        let prefix = shared.lock().unwrap().clone();
+        let all_cuts = g.all_cuts.load(Ordering::Relaxed);
+        g.wd.enter(move || json!({"transport": case.tname(), "cfg": case.cfg_json(), "all_cuts": all_cuts, "choices_prefix_debug": format!("{prefix:?}"), "note": "the execution that follows this choice prefix with default choices did not terminate"}));
+    }
     let rt = tokio::runtime::Builder::new_current_thread().enable_time().start_paused(true).build().expect("runtime");
     let sh2 = shared.clone();
     rt.block_on(async move {
@@ -2027,18 +2115,28 @@ fn run_case(g: &Global, case: &Case, ch: &mut Chooser) {
         }
     });
     drop(rt);
+    g.wd.leave();
     *ch = shared.lock().unwrap().clone();
 }
 
 fn stream_cfgs() -> Vec<StreamCfg> {
     let mut v = Vec::new();
+    let base = |plan: Vec<usize>, idle_ms: u64| StreamCfg { wave1: plan.len(), plan, idle_ms, rt_ms: ST_RT_MS, silent: false, gap_ms: 0 };
     for plan in [vec![0], vec![0, 0], vec![0, 1], vec![0, 0, 1]] {
-        for idle0 in [false, true] {
-            v.push(StreamCfg { plan: plan.clone(), idle0, wave1: plan.len() });
+        for idle_ms in [ST_IDLE_MS, 0] {
+            v.push(base(plan.clone(), idle_ms));
         }
     }
     // four concurrent, then two more into recycled slots
-    v.push(StreamCfg { plan: vec![0, 0, 1, 1, 0, 1], idle0: false, wave1: 4 });
+    v.push(StreamCfg { wave1: 4, ..base(vec![0, 0, 1, 1, 0, 1], ST_IDLE_MS) });
+    // the peer never answers unless the environment deviates
+    for plan in [vec![0], vec![0, 0], vec![0, 0, 1]] {
+        v.push(StreamCfg { silent: true, ..base(plan, ST_IDLE_MS) });
+    }
+    // second request after the connection has been idle for just below / exactly / just above the idle timeout
+    for gap_ms in [ST_IDLE_MS - 1, ST_IDLE_MS, ST_IDLE_MS + 1] {
+        v.push(StreamCfg { wave1: 1, gap_ms, ..base(vec![0, 0], ST_IDLE_MS) });
+    }
     v
 }
 
@@ -2101,6 +2199,9 @@ fn main() {
         outcomes: Stats::new(),
         verbose: ctx.replay.is_some(),
         samples: Mutex::new(BTreeMap::new()),
+        wd: Watchdog::start(ctx.clone(), std::time::Duration::from_secs(30), |d| {
+            format!("C15|{}|hang|execution-does-not-terminate", d["transport"].as_str().unwrap_or("?"))
+        }),
     };
     if let Some(path) = ctx.replay.clone() {
         let text = std::fs::read_to_string(&path).expect("replay file");
